@@ -632,7 +632,7 @@ def main(tier, seed, only=None):
   units = [("validate-rule-on-mujoco", unit_validate)]
   cfgs = [(3, 3, 1, [], True, "3b3g-exclude"), (3, 3, 1, [], False, "3b3g-nofilterparent"), (3, 3, 1, [(0, 2)], True, "3b3g-pair"), (3, 3, 0, [(2, 1), (0, 1)], True, "3b3g-2pairs"), (4, 3, 0, [], True, "4b3g")]
   if tier == "thorough":
-    cfgs += [(4, 4, 2, [], True, "4b4g-2excludes"), (4, 4, 1, [(1, 3)], False, "4b4g-pair-nofilterparent"), (4, 4, 1, [(0, 3), (2, 1)], True, "4b4g-2pairs")]
+    cfgs += [(4, 4, 2, [], True, "4b4g-2excludes"), (4, 4, 1, [(1, 3)], False, "4b4g-pair-nofilterparent"), (4, 4, 1, [(0, 3), (2, 1)], True, "4b4g-2pairs"), (4, 5, 2, [(1, 4)], True, "4b5g-2excludes-pair")]
   units += [unit_table(*c) for c in cfgs]
   units += [("consumer/sap_broadphase", unit_sap), ("consumer/write_contact", unit_write_filtered), ("consumer/contact_params", unit_pair_override)]
   if only:
